@@ -89,6 +89,9 @@ pub fn run_scen(sc: &Scen, case: u64) -> J {
     let program = if sc.program_missing { base.join("no-such-program") } else { bin_dir().join("objprog") };
     let mut cmd = Command::new(cambrian_bin());
     cmd.args(&sc.opts).arg("-s").arg(&spec_path);
+    // the children are told the concurrency of the run (see objprog: how hard to look at the process table)
+    let nc_opt = sc.opts.iter().position(|o| o == "--num-concurrent").and_then(|i| sc.opts.get(i + 1)).and_then(|v| v.parse::<usize>().ok()).unwrap_or(1);
+    cmd.env("CVH_NC", nc_opt.max(1).to_string());
     if sc.out_dir >= 1 { cmd.arg("-o").arg(&out_dir); }
     if sc.out_dir == 3 { cmd.arg("--force"); }
     cmd.arg("--").arg(&program);
